@@ -325,3 +325,65 @@ func H11_pipeline() {
 	vsymAssert(!e.s.HasPendingEvent(), "pipeline: nothing is delivered twice")
 	e.s.Fini()
 }
+
+// H11_pasteesc: a lone ESC is still pending when a bracketed paste begins (same read, the
+// escape timeout then passes), or when it ends: the pasted characters arrive as plain
+// runes - the pending Alt prefix does not leak onto pasted text - between one paste-start
+// and one paste-end, and a key typed after the paste is delivered too.
+func H11_pasteesc() {
+	t := hNewTScreen("xterm-256color")
+	text := vsymBytes("s", 2)
+	for i := range text {
+		vsymAssume(vsymAnd(text[i] >= 0x21, text[i] <= 0x7e))
+	}
+	var s []byte
+	where := vsymChoice("esc", 3) // 0: no ESC, 1: before paste-start, 2: before paste-end
+	if where == 1 {
+		s = append(s, 0x1b)
+	}
+	s = append(s, "\x1b[200~"...)
+	s = append(s, text...)
+	if where == 2 {
+		s = append(s, 0x1b)
+	}
+	s = append(s, "\x1b[201~"...)
+	s = append(s, 'q')
+	buf := &bytes.Buffer{}
+	buf.Write(s)
+	evs := t.collectEventsFromInput(buf, true)
+	vsymAssert(buf.Len() == 0, "paste with a pending ESC: nothing stays buffered once the timeout passed")
+	starts, ends, inside := 0, 0, false
+	var runes []*EventKey
+	var after []*EventKey
+	for _, ev := range evs {
+		switch x := ev.(type) {
+		case *EventPaste:
+			if x.Start() {
+				starts++
+				inside = true
+			} else {
+				ends++
+				inside = false
+			}
+		case *EventKey:
+			if inside {
+				runes = append(runes, x)
+			} else if starts > 0 && ends > 0 {
+				after = append(after, x)
+			}
+		}
+	}
+	vsymAssert(starts == 1 && ends == 1, "paste with a pending ESC: exactly one paste-start and one paste-end")
+	n := 0
+	for _, k := range runes {
+		if k.Key() == KeyRune {
+			vsymAssert(n < 2 && k.Rune() == rune(text[n%2]) && k.Modifiers() == ModNone, "paste with a pending ESC: pasted characters arrive as plain runes, in order")
+			n++
+		}
+	}
+	vsymAssert(n == 2, "paste with a pending ESC: every pasted character is delivered")
+	vsymAssert(len(after) == 1 && after[0].Key() == KeyRune && after[0].Rune() == 'q', "paste with a pending ESC: the key typed after the paste is delivered")
+	if where != 2 && len(after) == 1 {
+		vsymAssert(after[0].Modifiers() == ModNone, "a key typed after the paste carries no stale Alt")
+	}
+}
